@@ -1272,6 +1272,13 @@ class Pool:
                     if not job.ready() and job._worker_lost]:
             now = now or monotonic()
             lost_time, lost_ret = job._worker_lost
+            lost_pid = getattr(job, '_lost_worker_pid', None)
+            if lost_pid is not None and lost_pid not in job.worker_pids():
+                # the result the worker had published before it went
+                # has been consumed meanwhile (a part of a map): nothing
+                # of this job was lost with that worker.
+                job._worker_lost = None
+                continue
             if now - lost_time > job._lost_worker_timeout:
                 self.mark_as_worker_lost(job, lost_ret)
 
